@@ -27,4 +27,25 @@ CDblClose(a, b) ==
 AnyClose(a, b) == IF a.k = "Dbl" /\ b.k = "Dbl" THEN DblClose(a, b)
                   ELSE IF a.k = "CDbl" /\ b.k = "CDbl" THEN CDblClose(a, b)
                   ELSE IF a = b THEN "close" ELSE "far"
+
+\* ---- the double nearest below a positive rational p/q (p, q < 2^15): 53 mantissa bits by long division.
+\* Result in the shape of a dumped double (only the fields DblClose reads): truncation instead of rounding
+\* differs by at most one unit in the last place, far inside DblClose's tolerance.
+RECURSIVE Log2Floor(_, _, _), DivBits(_, _, _, _)
+\* t with 2^t <= p/q < 2^(t+1), searched upward from t
+Log2Floor(p, q, t) == IF t >= 0 THEN (IF p < q * (2 ^ (t + 1)) THEN t ELSE Log2Floor(p, q, t + 1))
+                      ELSE (IF p * (2 ^ (-t)) >= q THEN (IF p * (2 ^ (-t)) < 2 * q THEN t ELSE Log2Floor(p, q, t + 1)) ELSE -99)
+\* next n bits of r/den (r < den) as an integer
+DivBits(r, den, n, acc) == IF n = 0 THEN <<acc, r>> ELSE LET r2 == 2 * r IN IF r2 >= den THEN DivBits(r2 - den, den, n - 1, 2 * acc + 1) ELSE DivBits(r2, den, n - 1, 2 * acc)
+RatToDbl(p, q) ==        \* p, q > 0
+    LET t0 == CHOOSE t \in -16..16 : (IF t >= 0 THEN p >= q * (2 ^ t) /\ p < q * (2 ^ (t + 1)) ELSE p * (2 ^ (-t)) >= q /\ p * (2 ^ (-t)) < 2 * q)
+        num == IF t0 >= 0 THEN p ELSE p * (2 ^ (-t0))
+        den == IF t0 >= 0 THEN q * (2 ^ t0) ELSE q
+        hi == DivBits(num - den, den, 26, 1)           \* leading 1 and 26 more bits
+        lo == DivBits(hi[2], den, 26, 0)
+    IN [k |-> "Dbl", s |-> "fin", n |-> 1, d |-> 0,
+        a |-> <<[n |-> 0], [n |-> 0], [n |-> 0], [n |-> hi[1]], [n |-> lo[1]], [n |-> t0 - 52]>>]
+\* expected dump of the double value of a rational (sign, zero)
+RatDbl(r) == IF r[1] = 0 THEN [k |-> "Dbl", s |-> "zero", n |-> 1, d |-> 0, a |-> <<>>]
+             ELSE LET d == RatToDbl(IF r[1] < 0 THEN -r[1] ELSE r[1], r[2]) IN [d EXCEPT !.n = IF r[1] < 0 THEN -1 ELSE 1]
 =============================================================================
